@@ -859,6 +859,14 @@ def mon_c07(spec, run):
 def mon_c14(spec, run):
     bad = []
     tr = run.trace
+    if spec.get("other_device"):
+        oth = next((e for e in tr if e["k"] == "other_api"), None)
+        tr = first_connection_only(tr)
+        r_ = api_rets(tr, "initialize")
+        if oth is not None and r_ and r_[0]["exc"] is not None and oth["state"]:
+            bad.append(("accessors-later", f"after initialize() had failed, another YncaApi object was initialised against another receiver — and the failed object's accessors "
+                                           f"{sorted(oth['state'])} are set (the other object has {oth['other_state']})"))
+        run = _SubRun(run, tr)
     if not api_calls(tr, "initialize"):
         return bad
     rets = api_rets(tr, "initialize")
